@@ -9,7 +9,8 @@ import math
 
 import numpy as np
 
-KINDS = ["generic", "reverse", "zero_flow", "tiny_flow_1e-9", "tiny_flow_5e-11", "equal_p", "zero_length", "nan_flow"]
+KINDS = ["generic", "reverse", "zero_flow", "tiny_flow_1e-9", "tiny_flow_5e-11", "equal_p", "zero_length", "nan_flow",
+         "tiny_re"]
 
 
 def make_arrays(rng, n):
@@ -55,6 +56,9 @@ def make_arrays(rng, n):
         "der_lambda": (-1., 1.), "rho": (0.5, 1000.), "rho_n": (0.08, 1.3), "comp_fact": (0.8, 1.05),
         "der_comp": (-0.01, 0.01), "der_comp1": (-0.01, 0.01), "lambda_": (0.01, 0.08), "eta": (1e-5, 1e-3),
         "cp_n": (1000., 4200.), "cp_b": (1000., 4200.)}.items()}
+    tr = np.where(kinds == "tiny_re")[0]          # Reynolds numbers around the 1e-8 laminar mask
+    re_t = r.choice([2e-9, 9e-9, 1.1e-8, 5e-8, 5e-7, 5e-6], len(tr))
+    m[tr] = re_t * vec["eta"][tr] * br[tr, B.AREA] / br[tr, B.D]
     return br, node, kinds, vec
 
 
